@@ -20,7 +20,7 @@ def block(c, cat):
     args = ', '.join(('std::move(%s)' % x) if mv else x for x in names)
     intact = ' && '.join(['a%d.id == %d' % (k, k) for k in range(1, n + 1)]) or 'true'
     if h == 'element':
-        call = 'ctpg::ftors::element<%d>{}(%s)' % (i, args)
+        call = 'ctpg::ftors::_e%d(%s)' % (i, args)           # the documented placeholder objects _e1 .. _e9 themselves
         o.append('    decltype(auto) r = %s;' % call)
         o.append('    ht::check((const void*)&r == (const void*)&a%d, cid, "does not return the %d-th argument itself");' % (i, i))
         o.append('    ht::check((std::is_same_v<decltype(%s), %s%s>), cid, "value category changed");' % (call, T, '&&' if mv else '&'))
